@@ -26,7 +26,7 @@ ASSUMPTIONS = ['input headers carry the cards a GUPPI writer always emits (TELES
                "requantiser as built by from_data (statistics refreshed on every call); gain band [0.4,2.5] x median per antenna/pol (the final requantisation stage's per-sub-block deviation estimate scatters by ~25%; a decay by the digitiser deviation is 13.6x)",
                'exact model only for num_subblocks=1; rounding-tie window 1e-6']
 REQUIRED_CLASSES = ['bits=8', 'bits=4', 'pols=1', 'pols=2', 'ants>1', 'directio=1', 'directio=0', 'aligned', 'multi_file',
-                    'digitize', 'nodigitize', 'requested_longer', 'requested_shorter', 'exact_model', 'subblocks>=2']
+                    'digitize', 'nodigitize', 'requested_longer', 'requested_shorter', 'exact_model', 'subblocks>=2', 'lazy_channelized_stds']
 
 
 @st.composite
@@ -48,7 +48,7 @@ def strategy_(draw, tier):
                 sr=draw(st.sampled_from([1e6, 187.5e6, 3e9])), ascending=draw(st.booleans()),
                 seed=draw(st.integers(0, 10 ** 6)), tone_chan=draw(st.integers(0, 3)),
                 tone_bin=draw(st.integers(1, 3)), level=draw(st.sampled_from([0.5, 1.0, 2.0])),
-                fch1=draw(st.sampled_from([0.0, 6e9])))
+                fch1=draw(st.sampled_from([0.0, 6e9])), preseed=draw(st.sampled_from([True, True, True, False])))
 
 
 def strategy(tier):
@@ -126,7 +126,9 @@ def build(c, stem_in):
     for s in streams:
         s.add_constant_signal(f_start=f_tone, drift_rate=0.0, level=c['level'])
     fb = P.PolyphaseFilterbank(num_taps=c['taps'], num_branches=c['B'])
-    fb.estimate_channelized_stds(factor=300, seed=1)          # pre-seeded (cheap), copied into every filterbank
+    if c.get('preseed', True) or c['na'] > 1 or c['B'] > 8:
+        fb.estimate_channelized_stds(factor=300, seed=1)      # pre-seeded (cheap), copied into every filterbank
+    # else: left to the backend, which estimates lazily inside the first sub-block (the default use)
     be = BE.RawVoltageBackend.from_data(stem_in, src, digitizer=Q.RealQuantizer(), filterbank=fb,
                                         start_chan=c['start_chan'], num_subblocks=c['nsb'])
     return src, be
@@ -189,7 +191,10 @@ def run_case(case, ctx):
     if c['requested'] == 'shorter' and c['nblocks_in'] > 1:
         obs.cls('requested_shorter')
     n_out = c['nblocks_in'] if req is None else min(req, c['nblocks_in'])
-    stds_before = [[np.array(be.filterbank[a][p].channelized_stds, copy=True) for p in range(c['npol'])] for a in range(c['na'])]
+    lazy = be.filterbank[0][0].channelized_stds is None
+    if lazy:
+        obs.cls('lazy_channelized_stds')
+    stds_before = [[None if lazy else np.array(be.filterbank[a][p].channelized_stds, copy=True) for p in range(c['npol'])] for a in range(c['na'])]
     stem_out = ctx.path('out')
     hd = {}
     ok, _ = core.call(obs, 'record', lambda: be.record(output_file_stem=stem_out, num_blocks=req, length_mode='num_blocks',
@@ -198,7 +203,7 @@ def run_case(case, ctx):
         return obs
     for a in range(c['na']):
         for p in range(c['npol']):
-            if not np.array_equal(np.asarray(be.filterbank[a][p].channelized_stds), stds_before[a][p]):
+            if not lazy and not np.array_equal(np.asarray(be.filterbank[a][p].channelized_stds), stds_before[a][p]):
                 obs.fail(f'channelized_stds_changed:{"dig" if c["digitize"] else "nodig"}',
                          f'{stds_before[a][p].tolist()} -> {np.asarray(be.filterbank[a][p].channelized_stds).tolist()}')
                 break
@@ -211,6 +216,18 @@ def run_case(case, ctx):
         obs.fail('output_block_count', f'{len(out_blocks)} vs {n_out} (requested {req}, input {c["nblocks_in"]})')
         return obs
     h = out_blocks[0]['header']
+    # the reported lengths describe what was recorded (clamped to the input), not what was asked for
+    want_samples = n_out * spb * c['B']
+    if be.num_blocks != n_out or be.total_obs_num_samples != want_samples:
+        obs.fail('accounting:total_obs_num_samples', f'num_blocks {be.num_blocks} total {be.total_obs_num_samples} vs {n_out} blocks = {want_samples} samples (requested {req})')
+    if abs(be.obs_length - n_out * spb * z['tbin']) > 1e-12 * n_out * spb * z['tbin'] or \
+            abs(float(h.get('SCANLEN', 'nan')) - n_out * spb * z['tbin']) > 1e-9 * n_out * spb * z['tbin']:
+        obs.fail('accounting:obs_length_scanlen', f'obs_length {be.obs_length!r} SCANLEN {h.get("SCANLEN")} vs {n_out * spb * z["tbin"]!r} (requested {req}, input {c["nblocks_in"]})')
+    try:
+        if int(h['PKTSTOP']) - int(h['PKTSTART']) != n_out * spb:
+            obs.fail('accounting:pktstop', f'{h["PKTSTOP"]} - {h["PKTSTART"]} vs {n_out * spb}')
+    except (KeyError, ValueError) as e:
+        obs.fail('accounting:pkt_cards', repr(e))
     for k, v in (('BLOCSIZE', z['block_size']), ('NBITS', c['nbits']), ('NPOL', c['npol']), ('OBSNCHAN', obsnchan)):
         if int(h.get(k, -1)) != v:
             obs.fail(f'output_header:{k}', f'{h.get(k)} vs {v}')
@@ -266,11 +283,12 @@ def run_case(case, ctx):
     # ---- (4) exact two-stage model, one sub-block per block ---------------------------------------------------
     if c['nsb'] == 1 and not obs.violations:
         obs.cls('exact_model')
-        exact_model(obs, c, z, blocks_in, out, n_out)
+        exact_model(obs, c, z, blocks_in, out, n_out, [[np.asarray(be.filterbank[a][p].channelized_stds, dtype=float)
+                                                        for p in range(c['npol'])] for a in range(c['na'])])
     return obs
 
 
-def exact_model(obs, c, z, blocks_in, out, n_out):
+def exact_model(obs, c, z, blocks_in, out, n_out, cstds):
     from scipy.signal import firwin
     from setigen.voltage import antenna as AN, polyphase_filterbank as P
     T, B, nch, s0 = c['taps'], c['B'], c['num_chans'], c['start_chan']
@@ -290,8 +308,6 @@ def exact_model(obs, c, z, blocks_in, out, n_out):
         s.add_constant_signal(f_start=f_tone, drift_rate=0.0, level=c['level'])
     total = (n_out * spb + T) * B
     x_all = np.asarray(tw.get_samples(total))
-    fb = P.PolyphaseFilterbank(num_taps=T, num_branches=B)
-    cstd = np.asarray(fb.estimate_channelized_stds(factor=300, seed=1), dtype=float)
     lo, hi = -2 ** (c['nbits'] - 1), 2 ** (c['nbits'] - 1) - 1
     ties = 0
     for a in range(c['na']):
@@ -312,7 +328,7 @@ def exact_model(obs, c, z, blocks_in, out, n_out):
                     pos += ln
                 x = q
             X = reference_fast(x, h, T, B)[:, s0:s0 + nch]
-            custom = cstd * (32 / fw if c['digitize'] else 1.0)
+            custom = cstds[a][p] * (32 / fw if c['digitize'] else 1.0)      # the backend's cached unit-noise estimate
             for b in range(n_out):
                 V = X[b * spb:(b + 1) * spb]
                 inp = blocks_in[b][a * nch:(a + 1) * nch, :, p].T            # (spb, nch)
